@@ -24,6 +24,7 @@ type Case struct {
 	Dict    any            `json:"dict"` // hx.Enc of the stream dictionary (/Filter, /DecodeParms)
 	Body    string         `json:"body"` // hex
 	Streams map[string]obj `json:"objects,omitempty"`
+	Tag     string         `json:"tag,omitempty"`
 }
 
 type obj struct {
@@ -32,7 +33,7 @@ type obj struct {
 }
 
 func (x *xcase) toCase() Case {
-	c := Case{Space: x.space, Desc: x.desc, Via: x.via, Mode: x.mode, Dict: hx.Enc(x.dict), Body: hex.EncodeToString(x.body)}
+	c := Case{Space: x.space, Desc: x.desc, Via: x.via, Mode: x.mode, Dict: hx.Enc(x.dict), Body: hex.EncodeToString(x.body), Tag: x.tag}
 	for ref, o := range x.objs {
 		if c.Streams == nil {
 			c.Streams = map[string]obj{}
@@ -54,7 +55,7 @@ func (x *xcase) toCase() Case {
 }
 
 func (c *Case) toX() (*xcase, error) {
-	x := &xcase{space: c.Space, desc: c.Desc, via: c.Via, mode: c.Mode}
+	x := &xcase{space: c.Space, desc: c.Desc, via: c.Via, mode: c.Mode, tag: c.Tag}
 	d, ok := hx.Dec(c.Dict).(pdf.Dict)
 	if !ok {
 		return nil, fmt.Errorf("case dict is not a dictionary")
@@ -420,6 +421,7 @@ type builder struct {
 	seeds    []*seed
 	byName   map[string]*seed
 	t        *table
+	encCache map[string][]byte
 }
 
 var (
@@ -482,6 +484,10 @@ func buildTable(thorough bool) (*table, error) {
 	b.paramGroups()
 	b.shapeGroup()
 	b.chainGroups()
+	// added after the independent seeds (notes/C08.md, "Strengthening"): kept
+	// at the end so that the indices of the older spaces do not move
+	b.chain3Groups()
+	b.lzwStateGroups()
 	return b.t, nil
 }
 
